@@ -30,6 +30,14 @@ EXPLANATION = (
     " calls on self) reads self.start as a point, loops over all its points without skipping None, or (Close before any "
     "Move: every point missing) takes min() of a list emptied by the None filter. Not decided: wall-clock promptness "
     "(z_point scans backwards: quadratic on M(l z)*n), and totality of every later operation on a partially built path."
+    ' R09.9 (zero divisors in the arc solver): a forward pass over Arc._svg_parameterize with a two-fact'
+    ' abstract domain (known non-zero; known >= 1) - facts come from dominating exits on `x == 0` / `x * x =='
+    ' 0` (a non-zero product has non-zero factors; a product of non-zero floats is NOT known non-zero: it may'
+    ' underflow), re-scaling by sqrt(v) under `v > 1` keeps a radius non-zero - and every division whose'
+    ' divisor is a radius or a product of radii must find its divisor non-zero. R09.3 also requires the point'
+    ' accessors of Path (current_point, first_point, z_point, smooth_point) to test a stored end point against'
+    ' None before converting it with Point(): a closepath with nothing before it is stored as Close(None,'
+    ' None).'
 )
 TECHNIQUE = (
     "static analysis (no execution): nullness of lexer operands at builder calls (value tracking + token-language implications decided on regex automata); tokenizer loop summaries per token alternative (progress); ValueError-only raise lint; callee nullness summaries"
@@ -253,7 +261,7 @@ def current_point(ctx):
     # The accessors read the end points of STORED segments.  Path.closed stores Close(current_point, z_point) with both
     # operands Maybe ("z" as the first command), so a stored end point may be None: converting it with Point(...) raises
     # TypeError unless a None test of that very expression dominates the conversion.
-    from ..flow import dominated as _dom
+    from ..flow import dominated as _dom, stored_endpoint
 
     closed = ctx.fn("Path.closed", "R09.3")
     stores_maybe = False
@@ -271,7 +279,7 @@ def current_point(ctx):
             if isinstance(n, ast.Call) and call_name(n) == "Point" and len(n.args) == 1:
                 a = n.args[0]
                 chain = ast.unparse(a)
-                if not (isinstance(a, ast.Attribute) and a.attr in ("start", "end") and "_segments" in chain):
+                if not stored_endpoint(a, g):
                     continue
                 nconv += 1
 
@@ -418,7 +426,8 @@ def radius_divisors(ctx):
     def nonzero(e, st):
         e = strip(e)
         if isinstance(e, ast.Name):
-            return e.id in st["nz"]
+            # the name itself was tested, or it holds (unchanged operands) an expression that was
+            return e.id in st["nz"] or (e.id in st["defs"] and ast.dump(strip(st["defs"][e.id])) in st["nzx"])
         if isinstance(e, ast.Constant):
             return isinstance(e.value, (int, float)) and e.value != 0
         return ast.dump(e) in st["nzx"]  # otherwise a product of non-zero floats may underflow to zero
@@ -484,6 +493,7 @@ def radius_divisors(ctx):
     def assign(name, value, st):
         keep = value is not None and nonzero(value, st)
         was_pure = value is not None and pure(value, st)
+        is_ge1 = value is not None and ge1(value, st)
         st["nz"].discard(name)
         st["ge1"].discard(name)
         st["defs"].pop(name, None)
@@ -496,6 +506,8 @@ def radius_divisors(ctx):
             st["defs"][name] = value
         if keep:
             st["nz"].add(name)
+        if is_ge1:
+            st["ge1"].add(name)
         if was_pure:
             st["pure"].add(name)
         else:
